@@ -152,12 +152,76 @@ def hist_space(name, cases, rule, bound):
                  batch=60)
 
 
+# ------------------------------------------------------------------ chain x property-kind product, bind chains
+KINDS3 = ["absent", "data", "getter", "setter", "getset"]
+
+
+def _define(obj, kind, tag):
+    if kind == "absent":
+        return ""
+    if kind == "data":
+        return "Object.defineProperty(%s, 'x', {value: '%s', writable: true, enumerable: true, configurable: true}); " % (obj, tag)
+    parts = []
+    if kind in ("getter", "getset"):
+        parts.append("get: function () { L.push('get%s:' + (this === bot ? 'bot' : this === mid ? 'mid' : this === top ? 'top' : '?')); return 'g%s' }" % (tag, tag))
+    if kind in ("setter", "getset"):
+        parts.append("set: function (v) { L.push('set%s:' + v + ':' + (this === bot ? 'bot' : this === mid ? 'mid' : this === top ? 'top' : '?')) }" % tag)
+    return "Object.defineProperty(%s, 'x', {%s, enumerable: true, configurable: true}); " % (obj, ", ".join(parts))
+
+
+CHAIN_OPS = {
+    "read": "r = bot.x;",
+    "write": "try { bot.x = 'w'; r = 'ok' } catch (e) { r = 'throw:' + e.name }",
+    "write-mid": "try { mid.x = 'w'; r = 'ok' } catch (e) { r = 'throw:' + e.name }",
+    "delete": "r = delete bot.x;",
+    "in": "r = ('x' in bot) + '/' + ('x' in mid);",
+    "compound": "try { bot.x += '!'; r = 'ok' } catch (e) { r = 'throw:' + e.name }",
+    "method-call": "try { r = typeof bot.x === 'function' ? 'fn' : String(bot.x) } catch (e) { r = 'throw:' + e.name }",
+}
+
+
+def chain_cases():
+    out = []
+    for kt in KINDS3:
+        for km in KINDS3:
+            for kb in KINDS3:
+                for opn, op in CHAIN_OPS.items():
+                    src = ("var L = [], r; var top = {}, mid = Object.create(top), bot = Object.create(mid); " +
+                           _define("top", kt, "T") + _define("mid", km, "M") + _define("bot", kb, "B") + op +
+                           " __out(L.join()); __out(String(r)); __out([Object.prototype.hasOwnProperty.call(bot, 'x'), "
+                           "Object.prototype.hasOwnProperty.call(mid, 'x'), Object.prototype.hasOwnProperty.call(top, 'x')].join()); "
+                           "L = []; var after = [bot.x, mid.x, top.x].join(); __out(after); L.join()")
+                    out.append(("chain top=%s mid=%s bot=%s op=%s :: %s" % (kt, km, kb, opn, src), {"src": src, "tl": TL}))
+    return out
+
+
+def bind_cases():
+    out = []
+    fn = "function f(a, b, c) { return [this === A ? 'A' : this === B ? 'B' : this === undefined ? 'u' : typeof this, a, b, c, arguments.length].join() }"
+    binds = ["f", "f.bind(A)", "f.bind(A, 1)", "f.bind(A, 1, 2)", "f.bind(A).bind(B)", "f.bind(A, 1).bind(B, 2)", "f.bind(A, 1).bind(B)",
+             "f.bind(A).bind(B, 2)", "f.bind(A, 1).bind(B, 2).bind(A, 3)", "f.bind(null, 1)", "f.bind(undefined).bind(A, 9)", "f.bind(5, 1)"]
+    calls = ["g()", "g(7)", "g(7, 8)", "g.call(B, 7)", "g.apply(B, [7, 8])", "({m: g}).m(7)", "[7].map(g)[0]", "new g(7) instanceof f",
+             "g.length", "typeof g.name", "g.bind(B, 5)(6)"]
+    for b in binds:
+        for c in calls:
+            src = "var A = {n: 'A'}, B = {n: 'B'}; %s var g = %s; var r; try { r = %s } catch (e) { r = 'throw:' + e.name } String(r)" % (fn, b, c)
+            out.append(("bind %s then %s :: %s" % (b, c, src), {"src": src, "tl": TL}))
+    return out
+
+
 def core_spaces():
     return [
         hist_space("c08_hist_d2", lambda: _hist_cases(G.upto(G.FULL, 2), True), RULE_D2, "depth <= 2, |A| = %d" % len(G.FULL)),
         hist_space("c08_hist_core_d3", lambda: _hist_cases(G.product(G.CORE, 3), False),
                    "all length-3 histories over the %d-statement core alphabet; the state after the last statement is "
                    "observed (prefixes are cases of c08_hist_d2)" % len(G.CORE), "depth 3, |A| = %d" % len(G.CORE)),
+        Space("c08_chain", RUN, chain_cases, oracle="table", batch=60, bound="5^3 x 7",
+              rule="three-object prototype chain x property kind per level {absent, data, getter only, setter only, getter+setter} "
+                   "(125 chains) x {read, write on the lowest / middle object, delete, in, compound assignment, use}: which accessor "
+                   "ran with which receiver, the result, own-property pattern afterwards and the three reads afterwards"),
+        Space("c08_bind", RUN, bind_cases, oracle="table", batch=60, bound="12 x 11",
+              rule="12 bind chains (none, single, double, triple, with partial arguments at each level, primitive this) x 11 call "
+                   "forms (plain, with arguments, call, apply, as method, as callback, new, length, name, bound again)"),
         Space("c08_call", RUN, lambda: G.call_cases() + G.native_cases(), oracle="table", nontrivial=nontrivial_call,
               agree=agree, batch=60, bound="%d forms x %d kinds x %d probes + natives" % (
                   len(G.CALL_FORMS), len(G.FUNCTION_KINDS), len(G.CALL_PROBES)),
@@ -400,6 +464,12 @@ def _record(exp, obs, cid):
 
 
 def signature(sp, cid, payload, exp, obs):
+    if sp.name == "c08_chain":
+        parts = cid.split(" :: ")[0].split(" ")
+        return "chain|" + parts[-1], "prototype chain with accessors, %s: %s" % (parts[-1], mismatch_kind(exp, obs))
+    if sp.name == "c08_bind":
+        call = cid.split(" :: ")[0].split(" then ")[1]
+        return "bind|" + call, "bound function used as `%s`: %s" % (call, mismatch_kind(exp, obs))
     if sp.name == "c08_call":
         return call_signature(payload, exp, obs)
     h = tuple(payload["h"])
